@@ -1,4 +1,5 @@
 import GomlVerif.Model.Lift
+import GomlVerif.Model.LiftSim
 import GomlVerif.Driver.DecSyntax
 /-!
 `gomlmodel c08`: one line per program, `id<TAB>(liftin …)<TAB>(liftout …)`.
@@ -181,5 +182,29 @@ def runLine (l : String) : String :=
 def main : IO Unit := do
   let stdin ← IO.getStdin
   forEachLine stdin fun l => IO.println (runLine l)
+
+/-- `gomlmodel c08sim`: `id<TAB>(liftin …)<TAB>(liftout …)<TAB>(impls …)`; runs the `DirectFlow`
+    validator on the REAL Mono program and the REAL lifted program -/
+def simLine (l : String) : String :=
+  match l.splitOn "\t" with
+  | [id, inp, outp, impls] =>
+    match Sexp.parse inp, Sexp.parse outp, Sexp.parse impls with
+    | some si, some (.list [.atom "liftout", file, .list (.atom "lifted_structs" :: ls), .list (.atom "structs" :: ss), _]),
+        some (.list (.atom "impls" :: rows)) =>
+      match decLiftIn si, decFile file, optMapM decStruct (ls ++ ss) with
+      | some (env, fns), some fns', some structs' =>
+        let tbl := rows.filterMap decImpl
+        let P : Prog := { fns := fns, impls := tbl, structs := env.structs }
+        let P' : Prog := { fns := fns', impls := tbl, structs := structs' }
+        match firstRejected P P' with
+        | none => s!"{id}\tACCEPT\t"
+        | some f => s!"{id}\tREJECT\t{f}"
+      | _, _, _ => s!"{id}\tdecode-error\t"
+    | _, _, _ => s!"{id}\tparse-error\t"
+  | _ => "?\tbad-line\t"
+
+def mainSim : IO Unit := do
+  let stdin ← IO.getStdin
+  forEachLine stdin fun l => IO.println (simLine l)
 
 end Goml.Driver.C08
